@@ -14,6 +14,8 @@ RULE = (
     "number handed to the delegate and not yet done is <= the bound in force; delegate submissions occur in submit order; with a static "
     "count each hand-over happens at the virtual instant the model enables it (never +2 s/+30 s), and nothing stays queued while capacity "
     "is free; with block=True submit() returns for every count value and is parked only while the model queue holds >= count entries. "
+    "Plus a Hypothesis RuleBasedStateMachine (step-wise engine): rules submit / complete any in-flight job / cancel any future / advance "
+    "virtual time, with the queue model compared to what reached the delegate after EVERY rule. "
     "Non-trivial = more submissions than count with a completion or queued-cancel interleaved, or a completion landing inside the "
     "hand-over loop iteration. Distinct = digest of the case."
 )
@@ -315,6 +317,9 @@ def shards(tier, seed):
     n = 300 if tier == "quick" else 5000
     for i in range(8):
         specs.append({"mode": "random", "seed": seed * 1000 + i, "n": n})
+    # rule-based state machine (step-wise engine): one op per rule, model compared at every quiescent point
+    for i in range(4):
+        specs.append({"mode": "machine", "seed": seed * 1000 + 500 + i, "n": 60 if tier == "quick" else 1500, "steps": 30 if tier == "quick" else 60})
     return specs
 
 
@@ -325,10 +330,16 @@ def run_shard(spec, ctx):
             ent = cat[name]
             extra = {"count": ent["count"], "block": ent.get("block", False), "entry": name, "max_vtime": 150}
             progs.sweep(ctx, ent["prog"], name, evaluate, account, double=spec.get("double"), extra=extra)
+    elif spec["mode"] == "machine":
+        import machines
+        machines.run_machine(machines.make_throttle_machine, ctx, spec["seed"], spec["n"], spec["steps"])
     else:
         progs.random_search(ctx, spec, case_strategy(), evaluate, account)
 
 
 def replay(case):
+    if case.get("machine") == "throttle":
+        import machines
+        return machines.replay_throttle(case)
     viols, info = evaluate(case)
     return viols
